@@ -906,19 +906,22 @@ def final_drop_signature(c, fid):
     if f is None:
         return False
     # kept because a consumer used it, or because a trial elimination of it made that consumer fail
-    m = re.match(r'(?:used_by|if_excluded_then:)_[a-z-]+:_[A-Za-z]+\((\d+)\)', f.get('why', ''))
+    # (whyIncluded names the consumer as <origin>(<index in its collection>): the index is not the harness id when the
+    #  list was built through nested sub-collections)
+    m = re.match(r'(?:used_by|if_excluded_then:)_[a-z-]+:_([A-Za-z_]*)\((\d+)\)', f.get('why', ''))
     if not m:
         return False
-    g = next((x for x in fs if x['id'] == m.group(1)), None)
-    if g is None:
-        return False
-    if g['inc'] == '0':
-        return True
+    cands = [x for x in fs if x.get('origin') == m.group(1) and x.get('index') == m.group(2) and x['id'] != fid]
     outs = set(ints(f['out']))
-    rm = dict(kvp.split('>') for kvp in (g['drm'].split(',') if g['drm'] != '-' else []))
-    ins = {int(rm.get(str(t), t)) for t in ints(g['in'])}
-    changed = any(a != b for a, b in rm.items())
-    return changed and not (ins & outs)
+    for g in cands:
+        if g['inc'] == '0':
+            return True
+        rm = dict(kvp.split('>') for kvp in (g['drm'].split(',') if g['drm'] != '-' else []))
+        ins = {int(rm.get(str(t), t)) for t in ints(g['in'])}
+        changed = any(a != b for a, b in rm.items())
+        if changed and not (ins & outs):
+            return True
+    return False
 
 
 def up_shadow_signature(c, fid):
